@@ -138,6 +138,15 @@ def fragments(rnd, n):
             yield rnd.choice(["x = 1", "a.b", "f(x)", "'s'", "1 + 2"]) + rnd.choice([" # comment", "#", " \\\n + 1", "\\\n", " \\\n\\\n y", "\t#\tc", " ;", ";;", "\n\n\n", "\n#\n#\n", " \f ", "\f"]) + rnd.choice(["", "\n"])
 
 
+# statement layout after a literal that spans lines: the line structure (NEWLINE vs NL, INDENT/DEDENT, end of input) of what follows must
+# not depend on how the previous logical line was continued (backslash inside an f-string field, inside a string, inside brackets)
+SPANNING = [
+    'y = f"{a \\\n}"', "y = f'''{a \\\n + b}'''", 'y = f"{a:{w \\\n}}"', "y = f'{a \\\n!r}' 's'", 'y = (f"{a \\\n}",\n  1)', "y = f'''{a\n}'''", "y = f'''{\n\\\na\\\n}'''", 'y = f"{a}" \\\n  f"{b \\\n}"',
+    "y = 'a\\\nb'", "y = '''a\\\n'''", "y = [1,\\\n2]", "y = f'''\\\n{a}\\\n'''", 'y = rf"{a \\\n:>3}"', "y = f'{a!r:{w}\\\n}' if 0 else 1", 'y = f"{ {1: 2}[1] \\\n }"', "y = f'{f'{a \\\n}'}'",
+]
+AFTER = ["z\n", "\nz\n", "# c\nz\n", "", "    # c\n", "\n", "    w\nz\n", "  \n", "z", "    w", "\n\n    w\n", "else:\n    pass\n", "\\\n", "    \\\n    w\n", "\f\nz\n"]
+
+
 def run_shard(shard):
     acc = Acc()
     if "replay" in shard:
@@ -168,6 +177,10 @@ def run_shard(shard):
             check_case(acc, s, "seed")
         for s in ("x\U000e0100 = 1\n", "a\u0301b = c\n", "\u05e2\u05b4\u05d1 = 2\n", "x = a\u20dd + 1\n"):
             check_case(acc, s, "xid")
+        for lit, tail in itertools.product(SPANNING, AFTER):
+            check_case(acc, "if x:\n    " + lit + "\n" + tail, "after-spanning-literal")
+            check_case(acc, lit + "\n" + tail.lstrip(" "), "after-spanning-literal")
+            check_case(acc, ("if x:\n    " + lit + "\n" + tail).replace("\n", "\r\n"), "after-spanning-literal")
     elif kind == "fragments":
         for s in fragments(rnd, shard["n"]):
             check_case(acc, s, "fragment")
